@@ -55,7 +55,7 @@ def spec_waits(cfgv, timeout, arrivals):
     return waits, 'timeout', now + w, (3 if lim else (2 if star else 1))
 
 
-def build(cfgv, timeout, k, final, deltas, decorated):
+def build(cfgv, timeout, k, final, deltas, decorated, send_cost=0):
     """place each arrival relative to the edge of the window the Spec computes at that point"""
     arr = []
     kinds = ['p'] * k + (['f'] if final is not None else [])
@@ -71,6 +71,8 @@ def build(cfgv, timeout, k, final, deltas, decorated):
             break
     replies = [(a, PENDING if kd == 'p' else final) for a, kd in arr]
     h = cl.H(cfgv)
+    if send_cost:
+        h.send_cost(send_cost)
     if decorated:
         h.call(6, [], [], replies)
     else:
@@ -97,6 +99,12 @@ def gen_cases(tier, seed):
                             for deltas in itertools.product(deltas_all, repeat=n):
                                 dec = (timeout < 0) and (len(deltas) % 2 == 0)
                                 yield build(cfgv, timeout, k, final, deltas, dec).case(5000, 'grid k=%d %s' % (k, 'silence' if final is None else ('pos' if final == POS else 'neg')))
+                                if k <= 2 and cb == 0:
+                                    # the same with a transmission that takes time: every window counts from the end of the transmission
+                                    hs = build(cfgv, timeout, k, final, deltas, dec, send_cost=40 * U)
+                                    cs = hs.case(5000, 'grid, slow transmission k=%d' % k)
+                                    if all(a > 0 for a, f in case_info(cs)[2]):      # nothing can answer a request before it is out
+                                        yield cs
     # exception_on_negative off, and suppress-positive-response with wait_nrc (timeouts must not be raised)
     for k in range(0, 3):
         for deltas in itertools.product(deltas_all, repeat=k + 1):
@@ -143,9 +151,14 @@ def parse_obs(c, r):
 
 def case_info(c):
     cfgv, ops = cl.case_ops(c)
-    _, callid, args, cb, reps = ops[0]
+    _, callid, args, cb, reps = [o for o in ops if o[0] == 'call'][0]
     timeout = args[4] if callid == 1 else -1
     return cfgv, timeout, [(d, f) for d, f in reps]
+
+
+def t_sent(c):
+    """the instant the request was transmitted (0 unless the transmission itself took time): every window counts from there"""
+    return sum(o[1] for o in cl.case_ops(c)[1] if o[0] == 'send_cost')
 
 
 def oracle(c, r):
@@ -160,7 +173,9 @@ def oracle(c, r):
             break
     waits, out, end, tk = spec_waits(cfgv, timeout, kinds)
     kind, evs, t_end, dd = parse_obs(c, r)
-    got = [(e[1], e[2]) for e in evs if e[0] == 'W']
+    t0 = t_sent(c)
+    t_end -= t0
+    got = [(e[1], e[2] - t0) for e in evs if e[0] == 'W']
     if got != waits:
         return ('waits', 'wait_frame calls (timeout, at) = %r, the timing rule says %r' % (got, waits))
     if t_end != end:
